@@ -13,7 +13,7 @@
 struct alw_ctl alw;
 static const char *NAMES[] = {"malloc", "mmap", "mremap", "munmap", "open", "fstat", "read", "fopen", "fwrite", "fclose", "write", "calloc", "realloc", "fflush", "fdopen", "ftruncate"};
 const char *alw_kind_name(int k) { return k >= 0 && k < ALW_NKINDS ? NAMES[k] : "?"; }
-void alw_reset(void) { int g = alw.guard_files, c = alw.guard_code, f = alw.force_move; long s = alw.salt; memset(&alw, 0, sizeof alw); alw.guard_files = g; alw.guard_code = c; alw.force_move = f; alw.salt = s; }
+void alw_reset(void) { int g = alw.guard_files, c = alw.guard_code, f = alw.force_move, fo = alw.fill_on; unsigned char fb = alw.fill; long s = alw.salt; memset(&alw, 0, sizeof alw); alw.guard_files = g; alw.guard_code = c; alw.force_move = f; alw.salt = s; alw.fill_on = fo; alw.fill = fb; }
 /* realistic errno values, rotating with the index of the failed call */
 static int pick(const int *v, int n) { return v[(unsigned long)(alw.counter + alw.fail_at + alw.salt) % (unsigned long)n]; }
 static const int E_MEM[] = {ENOMEM, EAGAIN}, E_OPEN[] = {EMFILE, ENFILE, EACCES, EINTR, ENOENT}, E_IO[] = {EIO, EINTR, ENOSPC, EDQUOT};
@@ -27,7 +27,7 @@ static int hit(int kind) {
   return 0;
 }
 
-void *alw_malloc(size_t n) { if (hit(ALW_MALLOC)) { errno = ENOMEM; return NULL; } return malloc(n); }
+void *alw_malloc(size_t n) { if (hit(ALW_MALLOC)) { errno = ENOMEM; return NULL; } void *p = malloc(n); if (p && alw.fill_on) memset(p, alw.fill, n); return p; }
 
 void *alw_mmap(void *addr, size_t len, int prot, int flags, int fd, off_t off) {
   if (hit(ALW_MMAP)) { errno = ENOMEM; return MAP_FAILED; }
